@@ -91,4 +91,15 @@ CLAIMED['C19'] = dict(category='proof',
    note=_ASSUME + 'Precondition IN_sigma > 0. Sizes 1-2 assemblies x 1-3 subfactors x 1-5 terms. eval() expressions and CSV '
         'parsing are not decided.',
    technique='contract-based deductive verification (proxy execution, exact normaliser with sqrt relations, sign certificates)')
+CLAIMED['C20'] = dict(category='proof',
+   text='Orificing._check_new_group is proved to be the spread test; one iteration of the grouping loop (cut from the real '
+        'source) is proved, for ANY outcome of the cut-off test, to split the descending list into consecutive non-empty '
+        'groups covering every assembly once and to move the cut-off towards the requested count; the code after the loop '
+        'returns exactly the requested number of groups or stops with an error from every loop-exit state. One iteration of '
+        'the flow redistribution loop conserves the total flow, keeps group members equal and keeps groups 0..N-2 within '
+        'the pressure-drop limit; the code after it returns only a conserved, consistent allocation.',
+   note=_ASSUME + 'Response-curve interpolation is a dependency (any positive estimates). 4-6 assemblies, 2-4 groups '
+        'enumerated. Known finding: the last group is not limited by the pressure-drop limit. Native grouping examples are '
+        'a bounded supplement.',
+   technique='contract-based deductive verification (loops cut from the real source; body/suffix executed on proxies with free decision variables)')
 NOT_APPLICABLE = {f'C{i:02d}': 'check not built yet in this round (see DESIGN.md section 12 build order)' for i in range(1, 21)}
